@@ -45,6 +45,14 @@ func countQuery(d *db.DB, q string) int {
 
 // sequential use of the db API: NewUpload, m InsertRecord, then Commit or Abort
 func runIDsSeq(id int, ops []string) {
+	for try := 0; try < 3; try++ {
+		if runIDsSeqOnce(id, ops) {
+			return
+		}
+	}
+}
+
+func runIDsSeqOnce(id int, ops []string) bool {
 	defer func() {
 		if e := recover(); e != nil {
 			hx.Printf("crash %d %s\n", id, strings.ReplaceAll(fmt.Sprint(e), "\n", " "))
@@ -57,7 +65,6 @@ func runIDsSeq(id int, ops []string) {
 		panic(err)
 	}
 	defer d.Close()
-	hx.Printf("case %d kind=ids day=%s ops=%s tag=ids\n", id, day, strings.Join(ops, ","))
 	var ids []string
 	for _, op := range ops {
 		// op = <m><c|a>
@@ -94,8 +101,13 @@ func runIDsSeq(id int, ops []string) {
 	}
 	ul.Close()
 	nup, _ := d.CountUploads()
+	if utcDay() != day {
+		return false
+	}
+	hx.Printf("case %d kind=ids day=%s ops=%s tag=ids\n", id, day, strings.Join(ops, ","))
 	hx.Printf("obs %d ids=%s counts=%s list=%s nup=%d all=%d\n", id, joinOr(ids), joinOr(counts), joinOr(list), nup, countQuery(d, "upload>"))
 	hx.Printf("sobs %d idsok=%s\n", id, b01(idsOK(ids)))
+	return true
 }
 
 // G goroutines x M NewUpload on one database file; committed and aborted uploads mixed
